@@ -51,8 +51,11 @@ def _wrap(h, NVT=NVT, sched="iter"):
 
 
 def _make():
-    from . import c02, c05, c11, c20, c18
+    from . import c02, c05, c11, c20, c18, c05_sdmx
     return {
+        "sdmx_ao_to_bas_l1": (_wrap(c05_sdmx.h_l1), dict(ng=3), "dft"),
+        "sdmx_ao_to_bas_grid": (_wrap(c05_sdmx.h_grid), dict(ng=3), "dft"),
+        "sdmx_shl_to_alpha_l1": (_wrap(c05_sdmx.h_shl_alpha), dict(ng=2, nalpha=2, nsh=3), "dft"),
         "cider_coefs_gto_gq": (_wrap(c02.h_gto), dict(spec="se_erf_rinv", order="gq"), "numint"),
         "cider_coefs_gto_qg": (_wrap(c02.h_gto), dict(spec="se_a2r4", order="qg"), "numint"),
         "cider_coefs_vk1_gq": (_wrap(c02.h_vk1), dict(order="gq"), "dft"),
@@ -93,9 +96,11 @@ def table():
 def _team_table():
     """the same harnesses under the second schedule model: a team of T threads, the loop's own schedule kind and chunk size, every
     thread running its chunks one after the other (state left in thread-private variables reaches later iterations)"""
-    from . import c05, c11
+    from . import c05, c11, c05_sdmx
     out = {}
     for T in (2, 3):
+        out["sdmx_ao_to_bas_l1/T%d" % T] = (_wrap(c05_sdmx.h_l1, T, "chunks"), dict(ng=3), "dft")
+        out["sdmx_shl_to_alpha_l1/T%d" % T] = (_wrap(c05_sdmx.h_shl_alpha, T, "chunks"), dict(ng=2, nalpha=3, nsh=2), "dft")
         out["contract_rad_orb_9shells/T%d" % T] = (_wrap(c05.h_rad_orb, T, "chunks"), dict(nalpha=1, stride=2, offset=1, basis="nine_shells"), "dft")
         out["fill_l1_coeff/T%d" % T] = (_wrap(c05.h_fill_l1, T, "chunks"), {}, "dft")
         out["project_spline/T%d" % T] = (_wrap(c05.h_project_spline, T, "chunks"), {}, "dft")
